@@ -679,6 +679,11 @@ theorem tls_wrap_facts_hold :
     Gen.transportTlsWrapsBeforeProtocolConn = true ∧ Gen.dialerHandshakesInDialContext = true ∧
     Gen.dialerConnUsesDialContextResult = true ∧ Gen.dialerFailedHandshakeCloses = true := by decide
 
+/-- the third connection path — `kafka.NewWriter(WriterConfig{Dialer: d})` builds a Transport out of the pre-0.4
+Dialer: `Cfg.sasl` of the Transport model is `d.SASLMechanism != nil` only if the constructor copies the mechanism
+(and the TLS config) whatever the other settings are (seed C18-m11 copied both only under `if d.TLS != nil`) -/
+theorem new_writer_keeps_security_settings : Gen.newWriterCopiesSaslAndTlsUnconditionally = true := by decide
+
 /-! ## error codes are signed: every non-zero code is a refusal
 
 Kafka error codes are int16 and −1 (UNKNOWN_SERVER_ERROR) is a real one — a broker whose credential back-end throws
